@@ -137,19 +137,26 @@ func (d *ioDelegate) TryCache(h hash.Hash, data []byte) (bool, error) {
 	// Open a cache file, or create one if necessary.
 	f, err := cache.Open(dir, h, rsum, dsum)
 	if err != nil {
+		verifTrace("miss", "reason", err.Error(), "rsum", encodeToString(rsum), "dsum", encodeToString(dsum))
 		f, err := cache.CreateLevel(dir, h, rsum, dsum, flate.BestSpeed)
 		if err != nil && f != nil {
 			os.Remove(f.Name())
 		}
 		d.cache = f
+		if f != nil {
+			verifTrace("armed", "file", f.Name())
+		}
 		return false, nil
 	}
 
 	defer f.Close()
+	verifTrace("hit", "file", f.Name(), "rsum", encodeToString(rsum), "dsum", encodeToString(dsum))
 
 	if _, err := io.Copy(d.outfile, f); err != nil {
+		verifTrace("replay-failed", "error", err.Error())
 		return false, nil
 	}
+	verifTrace("replayed")
 
 	if d.outfile != os.Stdout {
 		os.Remove(f.Name())
@@ -167,9 +174,14 @@ func (d *ioDelegate) Close() error {
 	defer d.outfile.Close()
 
 	if d.cache != nil {
+		verifPointIO("io-pre-finalise")
 		if err := d.cache.Close(); err != nil {
 			os.Remove(d.cache.Name())
+			verifTrace("discarded", "file", d.cache.Name(), "error", err.Error())
+		} else {
+			verifTrace("finalised", "file", d.cache.Name())
 		}
+		verifPointIO("io-post-finalise")
 	}
 
 	return nil
